@@ -337,6 +337,43 @@ fn handle(op: &str, ty: &str, a: &[f64]) -> Option<String> {
             };
             Some(format!("{}", r as u8))
         }
+        "pweval" | "pwevaluator" | "pwevalv" => {
+            // Piecewise<Poly0>: type "n" or "nxq": (end, value) pairs, then the arguments
+            let mut it = ty.split('x');
+            let n: usize = it.next()?.parse().ok()?;
+            let q: usize = it.next().map(|s| s.parse().unwrap_or(1)).unwrap_or(1);
+            let pw = Piecewise {
+                segments: a[..2 * n].chunks(2).map(|c| Segment { end: c[0], poly: Poly0(c[1]) }).collect::<Vec<_>>(),
+            };
+            let xs = &a[2 * n..2 * n + q];
+            let res: Vec<f64> = match op {
+                "pweval" => xs.iter().map(|&x| pw.evaluate(x)).collect(),
+                "pwevaluator" => {
+                    let mut ev = PiecewiseEvaluator::new(&pw.segments);
+                    xs.iter().map(|&x| ev.evaluate(x)).collect()
+                }
+                _ => pw.evaluate_v(xs.iter().cloned()).collect(),
+            };
+            Some(out(&res))
+        }
+        "pwadd" | "pwsub" => {
+            // Piecewise<IntOfLogPoly4> with only k set: type "nxm": f (end,k) pairs then g (end,k) pairs
+            let mut it = ty.split('x');
+            let n: usize = it.next()?.parse().ok()?;
+            let m: usize = it.next()?.parse().ok()?;
+            let mk = |v: &[f64]| Piecewise {
+                segments: v.chunks(2).map(|c| Segment { end: c[0], poly: IntOfLogPoly4 { k: c[1], coeffs: [0.0; 4], u: 0.0 } }).collect::<Vec<_>>(),
+            };
+            let f = mk(&a[..2 * n]);
+            let g = mk(&a[2 * n..2 * (n + m)]);
+            let r = if op == "pwadd" { &f + &g } else { &f - &g };
+            let mut o = Vec::new();
+            for s in &r.segments {
+                o.push(s.end);
+                o.push(s.poly.k);
+            }
+            Some(out(&o))
+        }
         "linear" => {
             let pw = linear(&knots_of(a));
             let mut o = Vec::new();
